@@ -188,3 +188,105 @@ NATURAL_PARSER_FAIL = {
     "natural_lrd_list_heading": b"[foo]:\n- ## Some text",
     "natural_pragma_then_fail": b"<!-- pyml disable-next-line md013,md009-->\n> [a]:\n>\n",
 }
+
+# --------------------------------------------------------------------------
+# "first construct" followers (C13 only, never part of the sampled pool): tiny
+# documents whose FIRST element consults a rule's per-file field before anything
+# re-establishes it, so that a field left dirty by a predecessor that was cut
+# short inside one element is observable in the very next document.
+FIRST_CONSTRUCT = {
+    "dollar": _t("$ ls\n$ pwd\n"),
+    "dollar_one": _t("$ ls\n"),
+    "code6": _t("      code\n"),
+    "code4": _t("    code\n"),
+    "code_punct": _t("    code.\n"),
+    "fence_ws": _t("```text\n   x\n```\n"),
+    "fence": _t("```text\ncode\n```\n"),
+    "fence_dollar": _t("```sh\n$ ls\n```\n"),
+    "fence_nolang": _t("```\ncode\n```\n"),
+    "fence_tilde": _t("~~~text\ncode\n~~~\n"),
+    "atx_open2": _t("#  Two\n"),
+    "atx_open": _t("# T\n"),
+    "atx_closed2": _t("# T  #\n"),
+    "atx_closed": _t("# T #\n"),
+    "atx_h2": _t("## Sub\n"),
+    "atx_h3": _t("### Deep\n"),
+    "atx_punct": _t("# T.\n"),
+    "atx_indent": _t("  # T\n"),
+    "atx_nospace": _t("#T\n"),
+    "atx_dup": _t("# Same\n\n## Same\n"),
+    "setext": _t("T\n=\n"),
+    "setext2": _t("Sub\n---\n"),
+    "setext_ws": _t("  T\n  =\n"),
+    "setext_ws2": _t("T\n   ===\n"),
+    "setext_punct": _t("T.\n==\n"),
+    "text_punct": _t("Hello.\n"),
+    "para": _t("plain\n"),
+    "para_ws": _t("  plain\n more\n"),
+    "para_two": _t("plain\n\n\nmore\n"),
+    "blank_first": _t("\n\nplain\n"),
+    "ol1": _t("1. a\n2. b\n"),
+    "ol0": _t("0. a\n1. b\n"),
+    "ol3": _t("3. a\n4. b\n"),
+    "ol11": _t("1. a\n1. b\n"),
+    "ol_single": _t("2. a\n"),
+    "ol_indent": _t(" 1. a\n 2. b\n"),
+    "ul": _t("- a\n- b\n"),
+    "ul_star": _t("* a\n* b\n"),
+    "ul_plus": _t("+ a\n"),
+    "ul_nested": _t("- a\n  - b\n"),
+    "ul_indent": _t(" - a\n - b\n"),
+    "ul_wide": _t("-   a\n-   b\n"),
+    "ul_text": _t("- a\ntext\n"),
+    "html": _t("<div>\nx\n</div>\n"),
+    "html_b": _t("<b>x</b>\n"),
+    "html_h1": _t("<h1>x</h1>\n"),
+    "html_inline": _t("text <span>x</span>\n"),
+    "html_comment": _t("<!-- c -->\n"),
+    "html_close": _t("</div>\n"),
+    "emph_only": _t("**Bold line**\n"),
+    "emph_only2": _t("*Em line*\n\ntext\n"),
+    "emph_space": _t("a ** b ** c\n"),
+    "emph_space2": _t("** b **\n"),
+    "emph_space3": _t("x * y * z and _ q _\n"),
+    "emph_close": _t("b ** c\n"),
+    "emph_under": _t("__Bold__ and _em_\n"),
+    "tab_fence": _t("```text\n\tcode\n```\n"),
+    "tab_para": _t("a\tb\n"),
+    "tab_indent": _t("\tcode\n"),
+    "tab_second": _t("x\n\n```text\n\ty\n```\n\tz\n"),
+    "bq": _t("> q\n"),
+    "bq_lazy": _t("> q\nlazy\n"),
+    "bq_two": _t("> q\n\n> r\n"),
+    "bq_ws": _t(">  q\n"),
+    "hr": _t("---\n"),
+    "hr_star": _t("***\n"),
+    "link": _t("[a](b)\n"),
+    "link_ref": _t("[foo]\n"),
+    "link_def": _t("[foo]: /url\n"),
+    "bare_url": _t("see http://example.com now\n"),
+    "image": _t("![](x.png)\n"),
+    "names": _t("title and big links uses\n"),
+    "long": _t("y" * 90 + "\n"),
+    "long_code": _t("    " + "y" * 90 + "\n"),
+    "long_heading": _t("# " + "y" * 90 + "\n"),
+    "trailing_ws": _t("a  \nb \n"),
+    "code_span": _t("a ` b ` c\n"),
+    "no_eol": _t("plain"),
+    "pragma": _t("<!-- pyml disable-next-line md041-->\nplain\n"),
+    "table": _t("| a | b |\n|---|---|\n| 1 | 2 |\n"),
+    "html_h1_img": _t("<h1 align=\"center\"><img src=\"x.png\"/></h1>\n"),
+    "html_h1_img_alt": _t("<h1><img src=\"x.png\" alt=\"logo\"></h1>\n\ntext\n"),
+    "fence_emph": _t("```text\na * b * c\n```\n"),
+    "code_emph": _t("    a * b * c\n"),
+    "html_emph": _t("<div>\na * b * c\n</div>\n"),
+    "code_script": _t("    <script>x</script>\n"),
+    "fence_script": _t("```text\n<script>\n```\n"),
+    "html_script": _t("<div>\n<script>\n</div>\n"),
+    "para_multi_ws": _t("a \n  b \n c\n"),
+    "para_multi_lead": _t("a\n  b\n   c\n"),
+    "bq_para_ws": _t("> a\n>  b\n"),
+    "list_para_ws": _t("- a\n   b\n"),
+    "empty": b"",
+    "blank": b"\n",
+}
